@@ -168,7 +168,31 @@ class Actor:
         return v.variant == 'Some' and len(v.fields[0].fields) > 0
 
 
-def drive(I, st, ccell, max_polls, tag, on_pending=None):
+def cancel_task(I, st, ccell):
+    """the executor drops the task future at this suspension point (JoinHandle::abort / runtime shutdown): the lifecycle guard the task
+    owns is dropped exactly once (it is an upvar of the task's async block until `finish` consumes it); the callback that was pending is
+    cancelled. The precise per-state drop shim is not interpreted: only the guard's Drop (real MIR) runs."""
+    co = I.read(st, ccell, ())
+    active = None
+    for e in st.trace:
+        if e[0] == 'CB' and e[1] == 'start':
+            active = e
+        elif e[0] == 'CB' and e[1] in ('end', 'cancelled') and active is not None and e[3] == active[3]:
+            active = None
+    if active is not None:
+        st.emit('CB', 'cancelled', active[2], active[3])
+    st.emit('TASK_ABORTED')
+    outs = []
+    guards = [(i, v) for i, v in enumerate(co.upvars) if isinstance(v, Agg) and v.ty == 'ActorLifecycleGuard']
+    if len(guards) != 1:
+        raise Inconclusive('expected exactly one lifecycle guard among the task upvars, found %d' % len(guards))
+    i, g = guards[0]
+    for o in I.drop_value(st, g, Ref(ccell, (i,), True)):
+        outs.append(o)
+    return outs
+
+
+def drive(I, st, ccell, max_polls, tag, on_pending=None, cancel_points=False):
     """poll the coroutine at ccell until it completes; before every re-poll the port contents become arbitrary again.
     returns list of (state, kind, value, polls)"""
     done = []
@@ -185,6 +209,10 @@ def drive(I, st, ccell, max_polls, tag, on_pending=None):
             elif n + 1 >= max_polls:
                 done.append((o.st, 'budget', None, n + 1))
             else:
+                if cancel_points:
+                    cs = o.st.fork()
+                    for co in cancel_task(I, cs, ccell):
+                        done.append((co.st, 'cancelled' if co.kind == 'ret' else co.kind, None, n + 1))
                 lc.refresh_ports(I, o.st, '%s%d_%d' % (tag, n + 1, fresh_id()))
                 if on_pending:
                     on_pending(o.st)
@@ -214,12 +242,12 @@ def run_start(prog, poll_budget=1, with_supervisor=True, sup_status=2, max_polls
     return I, a, res, ccell
 
 
-def run_task(I, st, max_polls, tag='tk'):
+def run_task(I, st, max_polls, tag='tk', cancel_points=False):
     """drive the spawned actor task of state `st` to completion; returns list of (state, kind, value, polls)"""
     sp = st.ghost.get('spawned', ())
     if len(sp) != 1:
         raise Inconclusive('expected exactly one spawned task, found %d' % len(sp))
-    res = drive(I, st, sp[0], max_polls, tag)
+    res = drive(I, st, sp[0], max_polls, tag, cancel_points=cancel_points)
     for (s, kind, v, n) in res:
         if kind in ('ready', 'unwind', 'abort'):
             s.emit('TASKEND', kind)
